@@ -27,7 +27,7 @@ def factHolds (name : String) : Bool := (facts.lookup name) == some true
 def lifecycleFactsOK : Bool :=
   ["recoverBarrier", "recoverBarrierFirst", "deferRemoveConn", "deferClose", "loopClosesOwnListener_serve",
    "loopClosesOwnListener_tlsServe", "handshakeOutsideAcceptLoop", "registersBeforeSpawn", "handshakeInConnGoroutine",
-   "sharedTypesHavePointerReceivers", "startLoopsOwnTheirListener", "noReentrantLocking"].all factHolds
+   "sharedTypesHavePointerReceivers", "startLoopsOwnTheirListener", "noReentrantLocking", "goroutinesOnlyFromStartAndStartConn"].all factHolds
   && stopOrder == ["closeListeners", "waitLoops", "closeConns", "waitConns"]
 
 /-- the model's prediction for a concurrent workload -/
